@@ -223,7 +223,9 @@ func c17Derived(res *PureResult, add func(string)) {
 		{"connectionBufferSize", "2kb", func(m *config.CouchbaseMetadata) (any, any, any) {
 			return m.ConnectionBufferSize, uint(2048), uint(5242880)
 		}},
-		{"connectionTimeout", "9s", func(m *config.CouchbaseMetadata) (any, any, any) { return m.ConnectionTimeout, 9 * time.Second, time.Minute }},
+		{"connectionTimeout", "9s", func(m *config.CouchbaseMetadata) (any, any, any) {
+			return m.ConnectionTimeout, 9 * time.Second, time.Minute
+		}},
 		{"secureConnection", "false", func(m *config.CouchbaseMetadata) (any, any, any) { return m.SecureConnection, false, true }},
 		{"rootCAPath", "/mca", func(m *config.CouchbaseMetadata) (any, any, any) { return m.RootCAPath, "/mca", "/ca" }},
 	}
@@ -255,12 +257,18 @@ func c17Derived(res *PureResult, add func(string)) {
 		chk      func(m *config.CouchbaseMembership) (any, any, any)
 	}{
 		{"expirySeconds", "33", func(m *config.CouchbaseMembership) (any, any, any) { return m.ExpirySeconds, uint32(33), uint32(120) }},
-		{"heartbeatInterval", "3s", func(m *config.CouchbaseMembership) (any, any, any) { return m.HeartbeatInterval, 3 * time.Second, 10 * time.Second }},
+		{"heartbeatInterval", "3s", func(m *config.CouchbaseMembership) (any, any, any) {
+			return m.HeartbeatInterval, 3 * time.Second, 10 * time.Second
+		}},
 		{"heartbeatToleranceDuration", "4s", func(m *config.CouchbaseMembership) (any, any, any) {
 			return m.HeartbeatToleranceDuration, 4 * time.Second, time.Minute
 		}},
-		{"monitorInterval", "5s", func(m *config.CouchbaseMembership) (any, any, any) { return m.MonitorInterval, 5 * time.Second, 30 * time.Second }},
-		{"timeout", "6s", func(m *config.CouchbaseMembership) (any, any, any) { return m.Timeout, 6 * time.Second, 30 * time.Second }},
+		{"monitorInterval", "5s", func(m *config.CouchbaseMembership) (any, any, any) {
+			return m.MonitorInterval, 5 * time.Second, 30 * time.Second
+		}},
+		{"timeout", "6s", func(m *config.CouchbaseMembership) (any, any, any) {
+			return m.Timeout, 6 * time.Second, 30 * time.Second
+		}},
 	}
 	for mask := 0; mask < 1<<len(mkeys); mask++ {
 		var c config.Dcp
@@ -289,9 +297,15 @@ func c17Derived(res *PureResult, add func(string)) {
 		key, val string
 		chk      func(m *config.KubernetesLeaderElector) (any, any, any)
 	}{
-		{"leaseDuration", "11s", func(m *config.KubernetesLeaderElector) (any, any, any) { return m.LeaseDuration, 11 * time.Second, 8 * time.Second }},
-		{"renewDeadline", "12s", func(m *config.KubernetesLeaderElector) (any, any, any) { return m.RenewDeadline, 12 * time.Second, 5 * time.Second }},
-		{"retryPeriod", "13s", func(m *config.KubernetesLeaderElector) (any, any, any) { return m.RetryPeriod, 13 * time.Second, time.Second }},
+		{"leaseDuration", "11s", func(m *config.KubernetesLeaderElector) (any, any, any) {
+			return m.LeaseDuration, 11 * time.Second, 8 * time.Second
+		}},
+		{"renewDeadline", "12s", func(m *config.KubernetesLeaderElector) (any, any, any) {
+			return m.RenewDeadline, 12 * time.Second, 5 * time.Second
+		}},
+		{"retryPeriod", "13s", func(m *config.KubernetesLeaderElector) (any, any, any) {
+			return m.RetryPeriod, 13 * time.Second, time.Second
+		}},
 	}
 	for mask := 0; mask < 1<<len(lkeys); mask++ {
 		var c config.Dcp
